@@ -89,7 +89,7 @@ CHECKS = {
         technique="runtime monitoring: stat-record oracle (os.lstat/os.stat/os.readlink per follow rule) over labelled test batches evaluated by the real find (in-process find_main + binary sample) on a sandbox with every file type",
         level="exploration",
         text="Per worker one sandbox with every creatable type (regular, directory, fifo, socket, char/block device), links to each, link chains, dangling links, hard-link groups 1-6, 64 (quick) / 4096 (thorough) permission values, 25 owner/group combinations; 22 starting points so that links of every kind occur at depth 0, 1 and deeper; ~2200 (quick) distinct (mode, test) pairs over -type/-xtype, -perm exact/-/ in octal, 0-octal and symbolic spellings of the same mode, -links/-inum/-uid/-gid N/+N/-N, -user/-group by name and number, -empty, -samefile, -lname/-ilname under -P/-H/-L: ~700k (entry, test, mode) evaluations, of which ~8k are ones where the link's and the target's record give different answers.",
-        note="ELOOP links, X in symbolic modes, -nouser/-nogroup and symbolic links as -samefile reference are not judged; tmpfs; runs as root (mknod/chown). Round 8: lead-option lists with several of -P/-H/-L (the last one decides). Round 9: -uid/-gid operands of 2^32 + id.",
+        note="ELOOP links, X in symbolic modes, -nouser/-nogroup and symbolic links as -samefile reference are not judged; tmpfs; runs as root (mknod/chown). Round 8: lead-option lists with several of -P/-H/-L (the last one decides).",
         ref="DESIGN.md section 4 C13"),
     "C14": dict(
         technique="runtime monitoring: oracle-free invariants (the three forms -N/N/+N partition the files; +N/-N monotone in N) plus integer-arithmetic oracle on os.lstat records, over labelled clause triples evaluated in-process with an injected clock",
